@@ -310,14 +310,14 @@ pub fn run(ctx: &Ctx, out: &mut Out, prop: &str) {
         if ctx.shard == 0 {
             tag_table(out, &mut rng);
         }
-        for _ in 0..ctx.share(20_000, 400_000) {
+        for _ in 0..ctx.share(100_000, 800_000) {
             api_roundtrip(out, &mut rng);
         }
     }
 
     // (2) bounded-exhaustive word strings
     let alpha = alphabet(ctx.thorough);
-    let maxlen = if ctx.thorough { 7 } else { 5 };
+    let maxlen = if ctx.thorough { 7 } else { 6 };
     let total = enum_total(alpha.len() as u64, maxlen);
     let mut i = ctx.shard;
     let mut done_all = true;
@@ -343,7 +343,7 @@ pub fn run(ctx: &Ctx, out: &mut Out, prop: &str) {
     out.extra.insert("exhaustive_scope".into(), json!({"alphabet": alpha.iter().map(|x| format!("{:08x}", x)).collect::<Vec<_>>(), "max_words": maxlen, "total_strings": total, "completed": done_all}));
 
     // (3) structured mutants of valid encodings up to 64 KiB
-    let nm = ctx.share(if c06 { 150_000 } else { 120_000 }, 3_000_000);
+    let nm = ctx.share(if c06 { 800_000 } else { 800_000 }, 6_000_000);
     for k in 0..nm {
         let big = k % 16 == 0;
         let rm = random_valid(&mut rng, if big { 60_000 } else { 256 }, true);
@@ -370,7 +370,7 @@ pub fn run(ctx: &Ctx, out: &mut Out, prop: &str) {
 
     // (4) C06: random strings of every length class, and nested-garbage carriers
     if c06 {
-        for k in 0..ctx.share(60_000, 1_500_000) {
+        for k in 0..ctx.share(400_000, 3_000_000) {
             let b = random_bytes(&mut rng);
             out.case(fnv64(&b), nontrivial_bytes(&b));
             out.obs("random_strings", 1);
@@ -384,7 +384,7 @@ pub fn run(ctx: &Ctx, out: &mut Out, prop: &str) {
             }
         }
         // messages whose nested tags carry arbitrary bytes
-        for k in 0..ctx.share(40_000, 800_000) {
+        for k in 0..ctx.share(200_000, 1_600_000) {
             let mut rm = RefMsg::new();
             for t in [CERT, DELE, SREP] {
                 if rng.chance(2, 3) {
